@@ -55,7 +55,11 @@
 #include <assert.h>
 
 /** maximum length of out of band queues */
+#if defined(UPIPE_VERIF) && defined(UPIPE_VERIF_OOB_QUEUES)
+#define OOB_QUEUES UPIPE_VERIF_OOB_QUEUES
+#else
 #define OOB_QUEUES 255
+#endif
 
 /** @internal @This is the private context of a queue source pipe. */
 struct upipe_qsrc {
